@@ -478,8 +478,7 @@ def signature(case, f):
             sig['kind'] = 'stderr-over-pipe-buffer'
         elif case.get('missing'):
             sig['kind'] = 'missing-dependency-file'
-        elif any(len(deps[s]) >= 2 and any(case['behav'][d]['rc'] != 0 for d in deps[s]) and any(case['behav'][d]['rc'] == 0 for d in deps[s])
-                 for s in range(spec['n'])):
+        elif _mixed_deps(case):
             sig['kind'] = 'mixed-done-and-broken-dependencies'
         else:
             sig['kind'] = 'hang'
@@ -492,6 +491,21 @@ def signature(case, f):
     else:
         sig['kind'] = f['clause']
     return sig
+
+
+def _mixed_deps(case):
+    """some waiting step has a dependency that ends broken and one that ends done (predicted from the case alone)"""
+    spec = case['spec']
+    deps, whens = spec_deps(spec), spec['whens']
+    broken = {s for s in range(spec['n']) if whens[s] != 'never' and (case['behav'][s]['rc'] != 0 or s in case.get('missing', []))}
+    changed = True
+    while changed:
+        changed = False
+        for s in range(spec['n']):
+            if s not in broken and whens[s] == 'by_dependencies' and any(d in broken for d in deps[s]):
+                broken.add(s); changed = True
+    return any(whens[s] != 'never' and any(d in broken for d in deps[s]) and any(d not in broken for d in deps[s])
+               for s in range(spec['n']))
 
 
 def drop_step(case, k):
